@@ -69,8 +69,12 @@ def _fn_text(path, fn_path):
 def extract():
     """Write kani/src/extracted.rs from the current /repo sources. Returns the text."""
     calc = _fn_text('crates/cgt-core/src/calculator.rs', ['build_tax_year_summary'])
-    s1 = _stmt(calc, r'let\s+start_date\s*=', 'start_date in build_tax_year_summary')
-    s2 = _stmt(calc, r'let\s+end_date\s*=', 'end_date in build_tax_year_summary')
+    # everything the function computes before the filter (window bounds and any helper bindings), verbatim
+    b0 = calc.index('{') + 1
+    mk = re.search(r'let\s+year_matches\b', calc)
+    if not mk: raise Unsupported('lost anchor: year_matches in build_tax_year_summary')
+    prefix = calc[b0:mk.start()].strip()
+    if 'start_date' not in prefix: raise Unsupported('lost anchor: start_date in build_tax_year_summary')
     m = re.search(r'\.filter\(\|(\w+)\|\s*(.*?)\)\s*\.cloned\(\)', calc, re.S)
     if not m: raise Unsupported('lost anchor: year filter closure in build_tax_year_summary')
     var, cond = m.group(1), m.group(2)
@@ -95,8 +99,7 @@ use chrono::{{Datelike, NaiveDate}};
 
 // crates/cgt-core/src/calculator.rs build_tax_year_summary: the two window bounds and the filter predicate
 pub fn year_window(tax_year_start: i32, disposal_date: NaiveDate) -> Result<bool, CgtError> {{
-    {s1}
-    {s2}
+    {prefix}
     Ok({cond.strip()})
 }}
 
